@@ -379,6 +379,52 @@ def loopOut (c : LoopCfg) (len : Nat) : Outcome Nat :=
   let n := match c.limit with | some l => min len l | none => len
   if n < c.cap then .ok n else .overflow c.cap
 
+/-- the generators' identifier gate followed by one of the case-conversion loops: an identifier longer than
+the gate's limit never reaches the loop (`print_file` exits first) -/
+def gatedLoopOut (gate : Option Nat) (c : LoopCfg) (len : Nat) : Outcome Nat :=
+  match gate with
+  | some g => if g < len then .reject else loopOut c len
+  | none => loopOut c len
+
+/-! ## exp2cxx `TypeDescription` -/
+
+structure DescCfg where
+  cap : Nat
+  bounded : Bool      -- appends go through `desc_cat`: `if( used + 1 < cap ) strncat( buf, s, cap - 1 - used )`
+  deriving Repr
+
+/-- one append of a piece of `len` characters to a description that is `used` characters long -/
+def descAppend (c : DescCfg) (used len : Nat) : Outcome Nat :=
+  if c.bounded then
+    (if used + 1 < c.cap then .ok (used + min len (c.cap - 1 - used)) else .ok used)
+  else
+    (if used + len + 1 ≤ c.cap then .ok (used + len) else .overflow c.cap)
+
+def descRun (c : DescCfg) (used : Nat) : List Nat → Outcome Nat
+  | [] => .ok used
+  | l :: rest =>
+    match descAppend c used l with
+    | .ok u => descRun c u rest
+    | .overflow i => .overflow i
+    | .underflow => .underflow
+    | .reject => .reject
+
+/-! ## exppp output file name -/
+
+structure FileNameCfg where
+  cap : Nat
+  ext : Nat              -- length of the extension `sprintf` adds
+  app : Nat              -- length of what may be `strcat`ed afterwards
+  guard : Option Nat     -- `some g`: refused (diagnostic, no file) when strlen(name) + g > cap
+  deriving Repr
+
+/-- bytes stored into `exppp_filename_buffer` for a schema name of `len` characters (worst case: with the appendix) -/
+def fileNameOut (c : FileNameCfg) (len : Nat) : Outcome Nat :=
+  match c.guard with
+  | some g => if c.cap < len + g then .reject
+              else if len + c.ext + c.app + 1 ≤ c.cap then .ok (len + c.ext + c.app) else .overflow c.cap
+  | none => if len + c.ext + c.app + 1 ≤ c.cap then .ok (len + c.ext + c.app) else .overflow c.cap
+
 /-! ## exit status -/
 
 inductive Tool where
